@@ -648,13 +648,18 @@ def _result_outputs(res):
     out['get_sem'] = _call(res.get_sem)
     out['get_model_var'] = _call(res.get_model_var)
     out['get_noise_ceil'] = _call(res.get_noise_ceil)
-    for tt in ('t-test', 'bootstrap', 'ranksum'):
+    for tt in ('t-test', 'bootstrap'):
         out[f'test_all({tt})'] = _call(res.test_all, test_type=tt)
-        out[f'test_pairwise({tt})'] = _call(res.test_pairwise, test_type=tt)
-        out[f'test_zero({tt})'] = _call(res.test_zero, test_type=tt)
-        out[f'test_noise({tt})'] = _call(res.test_noise, test_type=tt)
         out[f'get_ci(0.9,{tt})'] = _call(res.get_ci, 0.9, test_type=tt)
         out[f'summary({tt})'] = _call(res.summary, test_type=tt)
+    for f in (res.test_pairwise, res.test_zero, res.test_noise):
+        out[f'{f.__name__}(t-test)'] = _call(f, test_type='t-test')
+    # the signed-rank tests cost one scipy call per model (pair): all pairs only for few models
+    if res.n_model <= 4:
+        out['test_all(ranksum)'] = _call(res.test_all, test_type='ranksum')
+    else:
+        out['test_zero(ranksum)'] = _call(res.test_zero, test_type='ranksum')
+        out['test_noise(ranksum)'] = _call(res.test_noise, test_type='ranksum')
     return out
 
 
@@ -722,7 +727,7 @@ def orc_rdms(case):
     r = _unchanged(snap, obj, label) or _cmp_rdms(snap, got, label)
     if r:
         return r
-    if _eq_usable(obj) and not (got == obj):
+    if _eq_usable(obj) and _eq_usable(got) and not (got == obj):
         return f'{label}: all fields are equal but `loaded == original` is False'
     if obj.n_cond >= 2:
         return _cmp_rdms(vars(_followup_rdms(obj)), _followup_rdms(got), label + ' after subset_pattern+subset')
@@ -756,7 +761,7 @@ def orc_dataset(case):
     r = _unchanged(snap, obj, label) or _cmp_dataset(snap, got, cls_name, label)
     if r:
         return r
-    if _eq_usable(obj) and not (got == obj):
+    if _eq_usable(obj) and _eq_usable(got) and not (got == obj):
         return f'{label}: all fields are equal but `loaded == original` is False'
     if case.get('followup', True):
         a = _call(_followup_dataset, obj)
@@ -901,7 +906,9 @@ def _apply_ds_op(x, op, rs):
         t = list(x.time_descriptors['time'])
         if len(t) < 2:
             return x
-        bins = [t[i:i + 2] for i in range(0, len(t) - len(t) % 2, 2)]
+        bins = [np.asarray(t[i:i + 2]) for i in range(0, len(t) - len(t) % 2, 2)]
+        x = x.copy()     # bin_time only accepts objects whose sole time descriptor is the binned one
+        x.time_descriptors = {'time': np.asarray(x.time_descriptors['time'])}
         return x.bin_time('time', bins)
     if op == 'time_as_channels' and temporal:
         return x.time_as_channels()
@@ -1227,8 +1234,8 @@ def tier_c(run, thorough):
     bd = Bounded(run, 'C16/result', 'C16/Result.save-load_results/oracle/roundtrip',
                  'Result with n_model in %s, mixed model classes; variances None/0-d/1-d/2-d/3-d with and without noise-ceiling '
                  'rows; evaluations 2-D..4-D incl. NaN rows; dof, n_rdm, n_pattern None/int; noise ceiling (2,) / (2,n_boot); '
-                 '4 cv_method strings; hdf5+pkl; path, file handle, BytesIO, overwrite on fresh path; 22 outputs of '
-                 'get_*/test_*/summary compared' % (counts,), function='result_from_dict')
+                 '5 cv_method strings; hdf5+pkl; path, file handle, BytesIO, overwrite on fresh path; get_means/sem/ci, '
+                 'test_* (t-test, bootstrap, ranksum) and summary() outputs compared' % (counts,), function='result_from_dict')
     mixes = (['fixed'], ['fixed', 'weighted', 'select', 'interpolate', 'base', 'fixed-multi', 'fixed-vector'])
     for fmt in fmts:
         for n_model in counts:
